@@ -379,6 +379,11 @@ def x_witness(pid, fails, repo):
     """failed / undecided obligations of unit X: bounded search over small content-model trees on the real reader (x_replay); other failures: L3 replay"""
     if not any(getattr(f, 'unit', '') == 'X' for f in fails):
         return l3_witness(pid, fails, repo)
+    # the replayed observable is the member list (names, order, wrappers) of the struct: it is a witness for the property-level clauses only
+    PROPERTY_CLAUSES = ('one-field-per-member-in-order', 'fields-are-the-members', 'base-members-then-own', 'derived-type-is-base-then-own',
+                        'content-then-attributes', 'flags-follow-the-declaration', 'anchor-lost', 'read-component-denotes-the-reference', 'base-lookup-finds-a-type')
+    if not any(f.obligation.rsplit('#', 1)[-1] in PROPERTY_CLAUSES for f in fails if getattr(f, 'unit', '') == 'X'):
+        return {'found': False, 'note': 'helper clause: no observable to replay'}
     res = x_replay.search(repo)
     an = res['anomalies']
     # a witness of an extension clause must be a derived type
